@@ -1,7 +1,7 @@
 (* C02 - The source is never modified; nothing outside the destination is touched.  Statements only. *)
 From RJ Require Import Base.Prelude Base.OrderedPlan Model.Settings Model.Core Model.Fs Model.Paths Model.Sync Model.SyncTop
   Spec.PlanSpec Spec.Mirror Proofs.FsProofs Proofs.ExecProofs Proofs.DryProofs Proofs.ConfineProofs Proofs.MirrorProofs
-  Proofs.QuietProofs Proofs.ConfinedMain Proofs.InstanceProofs Proofs.BlockProofs.
+  Proofs.QuietProofs Proofs.ConfinedMain Proofs.InstanceProofs Proofs.BlockProofs Proofs.ConfineAll Proofs.RepairMain.
 
 (* In protocol terms: whatever the arguments, outcome, answers given to prompts or faults met, the
    source-side doer is only ever asked to report its root, list entries and read file contents ... *)
@@ -34,6 +34,26 @@ Theorem C02_clean_run_confined : forall now_z incl normalize chunker,
   r_ok r = true -> r_skipped r = [] -> r_root_skipped r = false -> cf_dry cfg = false ->
   no_through (d_events (r_dest r)).
 Proof. exact clean_run_confined. Qed.
+
+(* ... and, with the F6b repair in place, for EVERY outcome: a sync in which nothing was skipped never resolves
+   a path through a destination symlink - whatever command fails, at whatever position, real or injected,
+   whatever source read fails, however late the boss notices, wherever the doer dies (Proofs/ConfineAll.v:
+   invariant "a link on the destination is an original one not yet due for deletion, or one this run created
+   - below which the plan has nothing -, or its path is blocked by a failed deletion, or nothing mutating
+   runs any more"). *)
+Theorem C02_every_run_confined : forall now_z incl normalize chunker cfg S D ans bits ls ld ft,
+  valid_listing now_z incl normalize S ls -> valid_listing now_z incl normalize (d_fs D) ld ->
+  parents_first (lkeys (side_listing now_z normalize S ls)) -> parents_first (lkeys (side_listing now_z normalize (d_fs D) ld)) ->
+  wf_fs (d_fs D) -> no_through (d_events D) ->
+  let r := sync_one now_z normalize chunker cfg S D ans bits ls ld ft in
+  r_skipped r = [] -> no_through (d_events (r_dest r)).
+Proof. exact all_runs_confined. Qed.
+
+Theorem C02_every_run_confined_executable : forall cfg S D a ans bits ex ft,
+  unique_keys S -> wf_fs S -> unique_keys D -> wf_fs D ->
+  let r := run_top cfg S D a ans bits ex ft in
+  r_skipped r = [] -> no_through (d_events (r_dest r)).
+Proof. exact run_top_all_confined. Qed.
 
 (* A dry run leaves the whole destination world as it is (C05), in particular its event log. *)
 Theorem C02_dry_run_confined : forall now_z normalize chunker cfg S D ans bits ls ld ft,
@@ -68,6 +88,8 @@ Proof. vm_compute. repeat split; reflexivity. Qed.
 Print Assumptions C02_source_only_read.
 Print Assumptions C02_clean_run_confined.
 Print Assumptions C02_through_needs_link.
+Print Assumptions C02_every_run_confined.
+Print Assumptions C02_every_run_confined_executable.
 Print Assumptions C02_blocked_refused.
 Print Assumptions C02_failed_delete_blocks.
 Print Assumptions C02_blocked_stays.
